@@ -207,6 +207,8 @@ def main():
             tier = args[i + 1]; i += 2
         elif args[i] == "--replay":
             replay = args[i + 1]; i += 2
+        elif args[i] == "--no-lean":      # developer option: correspondence only
+            os.environ["VERIF_NO_LEAN"] = "1"; i += 1
         else:
             i += 1
     seed = int(os.environ.get("VERIF_SEED", "1"))
@@ -238,7 +240,11 @@ def main():
         return
 
     # 1. proof obligations
-    lean = lean_obligations(prop, tier == "thorough")
+    if os.environ.get("VERIF_NO_LEAN"):
+        sh(["lake", "build", "drv"], cwd=LEAN)
+        lean = {"ok": True, "why": "", "log": "", "theorems": [], "discharged": 0}
+    else:
+        lean = lean_obligations(prop, tier == "thorough")
     # 2. harness against the current tree
     ok, out = build_harness(bins)
     if not ok:
